@@ -112,7 +112,7 @@ pub fn run(seed: u64, consts_path: &str, thorough: bool, out: &mut Vec<Value>) {
         }
     }
     // hash-to-field: block-boundary lengths of Keccak-256 (rate 136)
-    let lens: Vec<usize> = if thorough { vec![0, 1, 31, 32, 33, 135, 136, 137, 271, 272, 273, 1000] } else { vec![0, 1, 135, 136, 137, 272, 300] };
+    let lens: Vec<usize> = if thorough { vec![0, 1, 31, 32, 33, 135, 136, 137, 271, 272, 273, 1000, 4095, 4096, 4097, 8192, 10000] } else { vec![0, 1, 135, 136, 137, 272, 300, 4096, 4097] };
     for n in lens {
         let m: Vec<u8> = (0..n).map(|_| r.gen()).collect();
         let h = catch(AssertUnwindSafe(|| hash_to_field(&m)));
